@@ -184,8 +184,18 @@ class WireSig:
         from . import selectors as SEL
         SEL.VERSION_LOCALS["ids"] = SEL.version_locals(fn)
         if reader:
+            from .cfgutil import _strip_not
             for b in fn.blocks.values():
                 if b.cond is None or len(b.succ) != 2:
+                    continue
+                # a stream read that failed never belongs to a success path: clang joins `a && b && c`
+                # conditions with temporaries into one value, so the failing operand edges must be cut here
+                t_, pos_ = _strip_not(b.cond, True)
+                if isinstance(t_, dict) and t_.get("k") == "call" and t_.get("ret") == "bool" and \
+                        (prim_token(t_) is not None or strip_targs(t_.get("fn") or "") in R_PRIMS):
+                    fail_succ = b.succ[1] if pos_ else b.succ[0]
+                    if fail_succ is not None and b.succ[0] != b.succ[1]:
+                        dead.add((b.id, fail_succ))
                     continue
                 tv = _version_truth(b.cond, self.cur)
                 if tv is None:
@@ -240,7 +250,34 @@ class WireSig:
                 order.append(x)
                 stack.pop()
         order.reverse()
-        seqs = {fn.entry: {()}}
+        # `bool ok = false; switch (..) { case A: ok = Read..(); break; default: ok = false; } return ok;`
+        # - the value of a returned local is tracked along each path so that paths returning a literal
+        #   false are dropped like explicit `return false`
+        ret_var = {}
+        for b_, ev_ in fn.returns():
+            t_ = ev_.get("e")
+            while isinstance(t_, dict) and t_.get("k") in ("copy", "icast", "cast"):
+                t_ = t_.get("e")
+            if isinstance(t_, dict) and t_.get("k") == "var" and "d" in t_:
+                ret_var[b_.id] = t_["d"]
+        tracked = set(ret_var.values())
+        assigns = {}
+        if tracked:
+            for blk_, rk_, tree_, ev_ in fn.roots():
+                if rk_ == "decl" and (ev_.get("var") or {}).get("d") in tracked and isinstance(ev_.get("e"), dict):
+                    e_ = ev_["e"]
+                    assigns.setdefault(blk_.id, []).append((ev_["var"]["d"], e_.get("v") if e_.get("k") == "lit" else None))
+                if tree_ is None:
+                    continue
+                for n_ in walk(tree_):
+                    if n_.get("k") == "bin" and n_.get("op") == "=" and isinstance(n_.get("l"), dict) and \
+                            n_["l"].get("k") == "var" and n_["l"].get("d") in tracked:
+                        r_ = n_.get("r")
+                        while isinstance(r_, dict) and r_.get("k") in ("icast", "cast", "copy") and "v" not in r_:
+                            r_ = r_.get("e")
+                        val = r_.get("v") if isinstance(r_, dict) and r_.get("k") in ("lit", "icast", "cast") and "v" in r_ else None
+                        assigns.setdefault(n_.get("b", blk_.id), []).append((n_["l"]["d"], val))
+        seqs = {fn.entry: {((), ())}}
         trunc = False
         result = set()
         for b in order:
@@ -252,21 +289,28 @@ class WireSig:
                 if isinstance(t, tuple):          # inline helper
                     sub, tr = self.paths(t[1], reader, self_names, depth + 1)
                     trunc |= tr
-                    cur = {s + x for s in cur for x in sub}
+                    cur = {(s + x, st) for s, st in cur for x in sub}
                 else:
-                    cur = {s + (t,) for s in cur}
+                    cur = {(s + (t,), st) for s, st in cur}
                 if len(cur) > MAX_SEQS:
                     trunc = True
                     cur = set(list(cur)[:MAX_SEQS])
+            for d_, v_ in assigns.get(b, ()):
+                cur = {(s, tuple(sorted([kv for kv in st if kv[0] != d_] + [(d_, -1 if v_ is None else v_)])))
+                       for s, st in cur}
             succs = nxt(b)
             if b in fail_blocks:
                 continue
             if fn.exit in succs:
-                result |= cur
-            for s in succs:
-                if s == fn.exit:
+                rv = ret_var.get(b)
+                for s, st in cur:
+                    if rv is not None and dict(st).get(rv) == 0:
+                        continue              # returns a local known to be false on this path
+                    result.add(s)
+            for s_ in succs:
+                if s_ == fn.exit:
                     continue
-                tgt = seqs.setdefault(s, set())
+                tgt = seqs.setdefault(s_, set())
                 tgt |= cur
                 if len(tgt) > MAX_SEQS:
                     trunc = True
